@@ -240,7 +240,7 @@ def run_unit(unit, workdir, seed=None, rlimit=None, do_canary=True, keep=None):
             if kind == "requires-at-call":
                 cf = locate(gen, fns, cs["line_start"]) if clause_span else None
                 callee = "(" + extract.fn_label(cf) + ")" if cf else ""
-            name = "%s::%s#%s%s[%s]" % (unit, fname, kind, callee, lab)
+            name = ("%s::%s#%s%s[%s]" % (unit, fname, kind, callee, lab)).replace(" ", "_")   # no blanks: the name is one token of the VIOLATION / known-findings lines
             props, it = props_at(own_line)
             fails.append(dict(obligation=name, kind=kind, fn=fname, props=props, message=d["message"],
                               clause=" ".join(cl_text.split())[:300], clause_line=cs["line_start"], at_line=at_line,
@@ -417,9 +417,15 @@ def clause_count(gen):
     return len(re.findall(r"\b(requires|ensures|invariant|invariant_except_break|decreases)\b", gen)), len(re.findall(r"\bassert\s*(\(|forall)", gen))
 
 def write_evidence(prop, tier, seed, results, kres, violations, kviol, known_hits, wall):
-    os.makedirs(os.path.join(VERIF, "evidence"), exist_ok=True)
+    evdir = os.environ.get("PGVERIF_EVIDENCE_DIR") or os.path.join(VERIF, "evidence")   # (redirected by tools/run_seeded.sh only)
+    os.makedirs(evdir, exist_ok=True)
     pconf = CONF["properties"][prop]
-    obligations = sum(r.verified + r.errors for r in results) + sum(k["checks"] for k in kres if k["complete"])
+    # a function whose only failing clauses are listed known findings is reported under known_findings_hit, not as an
+    # obligation of this run (it is neither discharged nor a new violation); failures tagged for another property likewise
+    kf_fns = set((f["obligation"].split("#")[0]) for f, k in known_hits)
+    viol_fns = set((f["obligation"].split("#")[0]) for ur, f in violations)
+    excluded = len(kf_fns - viol_fns)
+    obligations = sum(r.verified + r.errors for r in results) - excluded + sum(k["checks"] for k in kres if k["complete"])
     discharged = sum(r.verified for r in results) + sum(k["checks"] - k["failed"] for k in kres if k["complete"])
     fu, samples, trusted, rewrites = [], [], [], {}
     for r in results:
@@ -456,7 +462,7 @@ def write_evidence(prop, tier, seed, results, kres, violations, kviol, known_hit
     ev = dict(property_id=prop, tier=tier, seed=seed, level="proof", coverage=cov,
               assumptions=pconf.get("assumptions", []) + CONF.get("global_assumptions", []),
               wall_s=round(wall, 2), violations=len(violations) + len(kviol))
-    json.dump(ev, open(os.path.join(VERIF, "evidence", "%s.json" % prop), "w"), indent=1)
+    json.dump(ev, open(os.path.join(evdir, "%s.json" % prop), "w"), indent=1)
 
 def replay(path):
     doc = json.load(open(path))
